@@ -30,6 +30,7 @@ Definition payload_of (n : nat) (t : tid) (m : mid) : list (loc * bool) :=
   | MWs => match t with TC => [(LWs, true); (LWsCnt, false)] | _ => [(LWs, false); (LWsCnt, false)] end
   | MSnap j => [(LSnap j, false)]
   | MState => [(LState, false)]
+  | MMix | MMixR => []
   end.
 
 Definition annotate (n : nat) (p : trace) : trace :=
@@ -86,6 +87,9 @@ Definition mState := MState.
 Definition tF (i : Z) := TF (N_ i).
 Definition lFile (i : Z) := LFile (N_ i).
 Definition lState := LState.
+Definition lMix := LMix.
+Definition mMix := MMix.
+Definition mMixR := MMixR.
 Definition r_ (t : tid) (l : loc) : event := Acc t l false false.
 Definition w_ (t : tid) (l : loc) : event := Acc t l true false.
 Definition ar_ (t : tid) (l : loc) : event := Acc t l false true.
